@@ -55,7 +55,7 @@ theorem appendRoots (s : Sep r f) (M : List HTree) (hM : ∀ t ∈ M, ∀ a ∈ 
 /-- What a lookup outside `r` returns shares no handle with `r`. -/
 theorem get?_disj (s : Sep r f) {h : Nat} (hn : h ∉ handles r) {t0 : HTree} (hg : f.get? h = some t0) :
     ∀ a ∈ handles r, a ∉ handles t0 := by
-  obtain ⟨t, ht, hf⟩ := findList?_root h f.roots t0 hg
+  obtain ⟨t, ht, hf⟩ := fc_findList?_root h f.roots t0 hg
   have htr : t ≠ r := by
     intro e
     rw [e, find?_none_of_not_mem h r hn] at hf
@@ -67,7 +67,7 @@ theorem ctx?_disj (s : Sep r f) {h : Nat} (hn : h ∉ handles r) {c : Ctx} (hc :
     (∀ a ∈ handlesList c.left, a ∉ handles r) ∧ (∀ a ∈ handlesList c.right, a ∉ handles r) := by
   obtain ⟨t, ht, hb⟩ := findSome?_root (ctxBelow h) f.roots c hc
   obtain ⟨h1, h2, h3, h4⟩ := ctxBelow_sub h t c hb
-  have hmem : h ∈ handles t := h3 h (h1 ▸ handle_mem_handles c.self)
+  have hmem : h ∈ handles t := h3 h (h1 ▸ fc_handle_mem_handles c.self)
   have htr : t ≠ r := fun e => hn (e ▸ hmem)
   exact ⟨fun a ha har => s.disj t ht htr a har (h2 a ha), fun a ha har => s.disj t ht htr a har (h4 a ha)⟩
 
@@ -126,17 +126,17 @@ theorem lastChild_disj (s : Sep r f) {h l : Nat} (hn : h ∉ handles r) (hl : f.
       · cases hl
         have hx : k ∈ t0.kids := List.mem_of_getLast? hk
         intro har
-        exact s.get?_disj hn hg _ har (kids_handles_sub t0 k hx _ (handle_mem_handles k))
+        exact s.get?_disj hn hg _ har (kids_handles_sub t0 k hx _ (fc_handle_mem_handles k))
       · cases hl
 
 /-! #### primitives -/
 
 theorem setValue (s : Sep r f) {h : Nat} (hn : h ∉ handles r) (v : Value) : Sep r (f.setValue h v) :=
-  s.map (mapAt h (HTree.setValue v)) [] (mapAt_of_not_mem h _ r hn)
+  s.map (mapAt h (HTree.setValue v)) [] (fc_mapAt_of_not_mem h _ r hn)
     (fun t a ha => Or.inl (by rwa [handles_mapAt_setValue] at ha)) (fun _ _ h => by simp at h) rfl
 
 theorem not_root_handle (hn : h ∉ handles r) : (r.handle != h) = true := by
-  have : r.handle ≠ h := fun e => hn (e ▸ handle_mem_handles r)
+  have : r.handle ≠ h := fun e => hn (e ▸ fc_handle_mem_handles r)
   simp [this]
 
 theorem spliceOut (s : Sep r f) {h : Nat} (hn : h ∉ handles r) : Sep r (f.spliceOut h) := by
@@ -200,7 +200,7 @@ theorem setKids_handles (x : HTree) (ks : List HTree) :
 
 theorem placeLast (s : Sep r f) {p : Nat} (hn : p ∉ handles r) (t0 : HTree)
     (hd : ∀ a ∈ handles r, a ∉ handles t0) : Sep r (f.placeLast p t0) :=
-  s.map (mapAt p (fun n => n.setKids (n.kids ++ [t0]))) (handles t0) (mapAt_of_not_mem p _ r hn)
+  s.map (mapAt p (fun n => n.setKids (n.kids ++ [t0]))) (handles t0) (fc_mapAt_of_not_mem p _ r hn)
     (mapAt_handles p _ (handles t0) (fun x a ha => by
       rw [setKids_handles, handlesList_append, handlesList_singleton] at ha
       cases x with
@@ -214,7 +214,7 @@ theorem placeLast (s : Sep r f) {p : Nat} (hn : p ∉ handles r) (t0 : HTree)
 
 theorem placeFirst (s : Sep r f) {p : Nat} (hn : p ∉ handles r) (t0 : HTree)
     (hd : ∀ a ∈ handles r, a ∉ handles t0) : Sep r (f.placeFirst p t0) :=
-  s.map (mapAt p (fun n => n.setKids (t0 :: n.kids))) (handles t0) (mapAt_of_not_mem p _ r hn)
+  s.map (mapAt p (fun n => n.setKids (t0 :: n.kids))) (handles t0) (fc_mapAt_of_not_mem p _ r hn)
     (mapAt_handles p _ (handles t0) (fun x a ha => by
       rw [setKids_handles] at ha
       cases x with
